@@ -570,7 +570,8 @@ private:
         const auto& [t, element_location] =
             get_level_header_element(c, level_name, name);
 
-        // strict: SBE requires underlying type to be unsigned integer
+        // strict: SBE requires underlying type to be unsigned integer, signed
+        // ones and `char` are tolerated
 
         if(t.length != 1)
         {
@@ -588,6 +589,19 @@ private:
                 element_location,
                 level_name,
                 name);
+        }
+
+        // `sbepp` does integer arithmetic on these values (`blockLength`,
+        // `numInGroup` and `length` are added to pointers)
+        if(!is_integral_type(t.primitive_type))
+        {
+            throw_error(
+                "{}: {} header element `{}` must have an integer type, got "
+                "`{}`",
+                element_location,
+                level_name,
+                name,
+                t.primitive_type);
         }
     }
 
@@ -620,6 +634,16 @@ private:
         for(const auto& field : required_fields)
         {
             validate_level_header_element(*c, level_name, field);
+        }
+
+        // optional elements, header fillers set them if they exist (strict:
+        // SBE has more requirements for them)
+        for(const std::string_view field : {"numGroups", "numVarDataFields"})
+        {
+            if(utils::find_composite_element(*c, field))
+            {
+                validate_level_header_element(*c, level_name, field);
+            }
         }
     }
 
